@@ -591,6 +591,7 @@ pub fn run(op: &str, a: &Args) -> Option<Outcome> {
         ["dom", "order_keys"] => Some(crate::ops_more::dom_order_keys(arg(a, "doc"))),
         ["dom", "tree_atomic"] => Some(crate::ops_more::dom_tree_atomic(arg(a, "scenario"))),
         ["dom", "attr_owner"] => Some(crate::ops_more::dom_attr_owner(arg(a, "scenario"))),
+        ["dom", "factory"] => Some(crate::ops_more::dom_factory(arg(a, "kind"), arg(a, "data"))),
         ["dom", "views_after_edits"] => Some(crate::ops_more::dom_after_edits(arg(a, "scenario"), "views")),
         ["dom", "keys_after_edits"] => Some(crate::ops_more::dom_after_edits(arg(a, "scenario"), "keys")),
         ["dom", "preorder_after_edits"] => Some(crate::ops_more::dom_after_edits(arg(a, "scenario"), "preorder")),
@@ -808,6 +809,11 @@ pub fn grid(op: &str, limit: usize) -> (usize, Vec<(Args, Outcome)>) {
             let attrs: String = (0..2000).map(|i| format!(" a{}=\"v\"", i)).collect();
             let many_attrs = format!("<r{}/>", attrs);
             try_one(mk(&[("doc", many_attrs.as_str())]), &mut n, &mut bad);
+        }
+        ["dom", "factory"] => {
+            for (k, d) in crate::ops_more::FACTORY_CASES {
+                try_one(mk(&[("kind", k), ("data", d)]), &mut n, &mut bad);
+            }
         }
         ["dom", "attr_owner"] => {
             for sc in crate::ops_more::ATTR_OWNER_SCENARIOS {
